@@ -108,10 +108,10 @@ def document_cycle(case):
             NeuroMLWriter.write(cur, fn)
             if dump(cur) != before:
                 r["write_modified_document"] = True
-            texts.append(open(fn).read())
+            texts.append(open(fn, encoding="utf-8").read())
             fn2 = os.path.join(d, "cycle%d_again.nml" % i)
             NeuroMLWriter.write(cur, fn2)
-            if open(fn2).read() != texts[-1]:
+            if open(fn2, encoding="utf-8").read() != texts[-1]:
                 r["second_write_differs"] = True
             cur = NeuroMLLoader.load(fn)
             r["back%d" % i] = dump(cur)
@@ -122,12 +122,12 @@ def document_cycle(case):
         ref_dump = r["back0"]
         try:
             fo = os.path.join(d, "fileobj_default_close.nml")
-            fh = open(fo, "w")
+            fh = open(fo, "w", encoding="utf-8")
             NeuroMLWriter.write(doc, fh)            # documented default: close=True
             if open(fo, "rb").read() != ref_bytes:   # read while the caller still holds fh
                 mism.append("writer:file-object(default close): file content differs from the path-written file")
             fo2 = os.path.join(d, "fileobj_noclose.nml")
-            fh2 = open(fo2, "w")
+            fh2 = open(fo2, "w", encoding="utf-8")
             NeuroMLWriter.write(doc, fh2, close=False)
             if fh2.closed:
                 mism.append("writer:file-object(close=False): the caller's handle was closed")
@@ -140,8 +140,8 @@ def document_cycle(case):
         try:
             from neuroml.loaders import read_neuroml2_file, read_neuroml2_string
             for name, f in (("read_neuroml2_file", lambda: read_neuroml2_file(fn)),
-                            ("read_neuroml2_string", lambda: read_neuroml2_string(open(fn).read())),
-                            ("read_neuroml2_string(leading comment)", lambda: read_neuroml2_string("<!-- c -->\n" + open(fn).read()))):
+                            ("read_neuroml2_string", lambda: read_neuroml2_string(open(fn, encoding="utf-8").read())),
+                            ("read_neuroml2_string(leading comment)", lambda: read_neuroml2_string("<!-- c -->\n" + open(fn, encoding="utf-8").read()))):
                 try:
                     got = dump(f())
                     if got != ref_dump:
@@ -196,6 +196,8 @@ def document_cycle(case):
         try:
             names = ["net.h5.nml", "cells.HDF5.xml", "a.nml.h5.exported.xml", "with space.nml", "d\u00e9j\u00e0.nml", "UPPER.NML",
                      "no_extension", "two..dots.nml", ".hidden.nml", "h5", "x.hdf5.nml"]
+            if sys.getfilesystemencoding().lower().replace("-", "") != "utf8":
+                names = [x for x in names if x.isascii()]   # the OS layer, not the library, refuses such names then
             nm = names[NAME_TURN % len(names)]
             NAME_TURN += 1
             odd = os.path.join(d, nm)
